@@ -33,8 +33,33 @@ long g_ops_ran;          /* bit mask of operators that were invoked (C12) */
 long g_min_level;        /* smallest level argument seen by a cell operator */
 _Bool ghost_cfg_equal;   /* precondition of execute(): the executor's configuration equals the tree's */
 
+#ifdef PLAIN_STUBS
+_Bool TbfSpacialConfiguration__op_eq(const struct TbfSpacialConfiguration *self, const struct TbfSpacialConfiguration *other) { return ghost_cfg_equal; }
+#else
 _Bool TbfSpacialConfiguration__op_eq(const struct TbfSpacialConfiguration *self, const struct TbfSpacialConfiguration *other)
 __CPROVER_requires(1) __CPROVER_ensures(__CPROVER_return_value == ghost_cfg_equal) __CPROVER_assigns();
+#endif
+
+/* ---- C12 dispatch: the six passes as recording contracts (their bodies are covered by the bounded runs and by kernelif) */
+long g_seq[8]; long g_nseq;
+#define PASS_CONTRACT(NAME, ID) void ALGO_##NAME(struct TbfAlgorithm *self, struct TbfVerifTree *inTree) \
+  __CPROVER_requires(0 <= g_nseq && g_nseq < 7) \
+  __CPROVER_ensures(g_nseq == __CPROVER_old(g_nseq) + 1 && g_seq[__CPROVER_old(g_nseq)] == ID) \
+  __CPROVER_assigns(g_nseq, g_seq[g_nseq]);
+#ifdef DISPATCH_ONLY
+PASS_CONTRACT(P2M, 2) PASS_CONTRACT(M2M, 4) PASS_CONTRACT(M2L, 8) PASS_CONTRACT(L2L, 16) PASS_CONTRACT(L2P, 32) PASS_CONTRACT(P2P, 1)
+static inline _Bool spec_dispatch_ok(int ops)
+{
+  const long order[6] = {2, 4, 8, 16, 32, 1};   /* natural order: P2M M2M M2L L2L L2P P2P */
+  long n = 0;
+  for(int k = 0; k < 6; ++k) if(ops & order[k]) { if(n >= g_nseq || g_seq[n] != order[k]) return 0; n++; }
+  return n == g_nseq;
+}
+void ALGO_execute(struct TbfAlgorithm *self, struct TbfVerifTree *inTree, const int inOperationToProceed)
+__CPROVER_requires(g_nseq == 0 && ghost_cfg_equal)
+__CPROVER_ensures(spec_dispatch_ok(inOperationToProceed))
+__CPROVER_assigns(g_nseq, __CPROVER_object_whole(g_seq));
+#endif
 
 static inline long coord1(long idx) { return idx; } /* DIM == 1: the index is the coordinate */
 
@@ -203,7 +228,16 @@ static void build_tree(struct TbfVerifTree *t)
 }
 static _Bool leaf_in_cell(long leaf, long level, long cell) { return (leaf >> (DIM * (LEAFLVL - level))) == cell; }
 
-/*@ harness bounded_execute_full unwind=UNW unwindset=USET bounded=DIM,HEIGHT:all-occupancies,all-groupings,1-particle-per-leaf replace=TbfSpacialConfiguration__op_eq props=C01,C02,C08,C09x,C15 timeout=3000 mem=24000 */
+/*@ harness h_dispatch enforce=ALGO_execute replace=ALGO_P2M,ALGO_M2M,ALGO_M2L,ALGO_L2L,ALGO_L2P,ALGO_P2P,TbfSpacialConfiguration__op_eq unwind=8 defs=DISPATCH_ONLY props=C12,C15 */
+void h_dispatch(void)
+{
+  struct TbfAlgorithm algo; struct TbfVerifTree tree; int ops;
+  g_nseq = 0; ghost_cfg_equal = 1;
+  ALGO_execute(&algo, &tree, ops);
+  CANARY();
+}
+
+/*@ harness bounded_execute_full unwind=UNW unwindset=USET bounded=DIM,HEIGHT:all-occupancies,all-groupings,1-particle-per-leaf plain=1 defs=PLAIN_STUBS props=C01,C02,C08,C09x,C15 timeout=3000 mem=24000 */
 void bounded_execute_full(void)
 {
   struct TbfAlgorithm algo; struct TbfVerifTree tree;
@@ -226,7 +260,7 @@ void bounded_execute_full(void)
   CANARY();
 }
 
-/*@ harness bounded_execute_staged unwind=UNW unwindset=USET bounded=DIM,HEIGHT:all-occupancies,all-groupings,1-particle-per-leaf replace=TbfSpacialConfiguration__op_eq props=C12,C15 timeout=3000 mem=24000 */
+/*@ harness bounded_execute_staged unwind=UNW unwindset=USET bounded=DIM,HEIGHT:all-occupancies,all-groupings,1-particle-per-leaf plain=1 defs=PLAIN_STUBS props=C12,C15 timeout=3000 mem=24000 */
 void bounded_execute_staged(void)
 {
   struct TbfAlgorithm algo; struct TbfVerifTree tree;
@@ -247,7 +281,7 @@ void bounded_execute_staged(void)
   CANARY();
 }
 
-/*@ harness bounded_execute_p2p_only unwind=UNW unwindset=USET bounded=DIM,HEIGHT:all-occupancies,all-groupings replace=TbfSpacialConfiguration__op_eq props=C12,C15 timeout=3000 mem=24000 */
+/*@ harness bounded_execute_p2p_only unwind=UNW unwindset=USET bounded=DIM,HEIGHT:all-occupancies,all-groupings plain=1 defs=PLAIN_STUBS props=C12,C15 timeout=3000 mem=24000 */
 void bounded_execute_p2p_only(void)
 {
   struct TbfAlgorithm algo; struct TbfVerifTree tree;
